@@ -3,7 +3,7 @@
   (`PyodaProofs/C07Stepped.lean: stepped_roundtrip`), kept in the model so that the driver can report which
   generated patterns the theorem covers.
 -/
-import PyodaModel.Text.Stepped
+import PyodaModel.Text.WellFormed
 
 namespace Pyoda.Text
 
@@ -43,6 +43,26 @@ def Follow.notChar (x : Char) : Follow → Bool
   | .dotOr (some c) => decide (x ≠ '.') && decide (c ≠ x)
   | .unknown => false
 
+/-- the following text does not start, up to ASCII case, with the (lower-case) character `x` -/
+def Follow.notCharCI (x : Char) : Follow → Bool
+  | .stop => true
+  | .char c => decide (asciiLower c ≠ x)
+  | .digit => !isDigit x
+  | .dotOr none => decide (x ≠ '.')
+  | .dotOr (some c) => decide (x ≠ '.') && decide (asciiLower c ≠ x)
+  | .unknown => false
+
+/-- text steps: the culture's names can be told apart (`monthNamesOK`, `dayNamesOK`, `amPmOK`, `eraOK`) and what
+    follows cannot continue a written name into a longer one (the `…Danger` characters) -/
+def textStepOK (cu : Culture) (used : Nat) (f : Follow) : Step → Bool
+  | .monthText count =>
+    monthNamesOK cu count (genitiveOf used) && (monthDanger cu count (genitiveOf used)).all f.notCharCI
+  | .dayText count => dayNamesOK cu count && (dayDanger cu count).all f.notCharCI
+  | .amPm count => amPmOK cu count && (amPmDanger cu count).all f.notCharCI
+  | .era => eraOK cu && (eraDanger cu).all f.notCharCI
+  | .calendar => true
+  | _ => false
+
 /-- after the step, is the output known not to end with `.`? -/
 def lastSafe (safe : Bool) : Step → Bool
   | .lit s => if s = [] then safe else decide (s.getLast? ≠ some '.')
@@ -52,7 +72,7 @@ def lastSafe (safe : Bool) : Step → Bool
   | .signNegativeOnly => safe
   | _ => false
 
-def delimStep (safe : Bool) (f : Follow) : Step → Bool
+def delimStep (cu : Culture) (used : Nat) (safe : Bool) (f : Follow) : Step → Bool
   | .lit _ => true
   | .semi => true
   | .signRequired => true
@@ -60,14 +80,15 @@ def delimStep (safe : Bool) (f : Follow) : Step → Bool
   | .frac _ _ fixed => fixed || (f.nonDigit && safe)
   | .dotFrac _ _ comma => f.nonDigit && f.notChar '.' && (!comma || f.notChar ',')
   | .signNegativeOnly => f.notChar '-' && f.notChar '+'
-  | _ => false
+  | s => textStepOK cu used f s
 
 /-- **Delimited** (decidable): every variable-width numeric field (`count < maxCount`, `F…`, `.F…`) is followed by
     a literal that does not start with a digit or ends the pattern; a bare `F…` is not written right after a `.`;
     `.F…`/`;F…` is not followed by a literal `.` (`,`); a negative-only sign is not followed by a literal `-`/`+`;
-    no text steps. -/
-def Delimited (safe : Bool) : List Step → Bool
+    text steps (month and day names, am/pm designators, era names) satisfy `textStepOK` in the culture `cu` for
+    the pattern's field set `used`. -/
+def Delimited (cu : Culture) (used : Nat) (safe : Bool) : List Step → Bool
   | [] => true
-  | s :: ss => delimStep safe (follow ss) s && Delimited (lastSafe safe s) ss
+  | s :: ss => delimStep cu used safe (follow ss) s && Delimited cu used (lastSafe safe s) ss
 
 end Pyoda.Text
